@@ -2,6 +2,7 @@ package props
 
 import (
 	"fmt"
+	"os"
 	"path/filepath"
 	"sort"
 	"strings"
@@ -471,6 +472,12 @@ func c18Case(t *core.T, steps []string, maxPerStep int) {
 		} else if t.R.Intn(4) == 0 {
 			jobs = append(jobs, job{j.i, j.step, 3})
 		}
+	}
+	if only := os.Getenv("VERIF_C18_ONLY"); only != "" {
+		// debugging aid: "index:consecutive" runs just that fault
+		var oi, on int64
+		fmt.Sscanf(only, "%d:%d", &oi, &on)
+		jobs = []job{{oi, "debug", on}}
 	}
 	for ji, j := range jobs {
 		if t.Failed() {
